@@ -20,12 +20,15 @@ fn name_txt(s: &str) -> String {
              "nat8", "nat16", "nat32", "nat64", "int8", "int16", "int32", "int64"].contains(&s);
     if plain { s.to_string() } else { crate::hash::lit(s) }
 }
+fn docs_txt(v: &Value) -> String {
+    match v.get("doc").and_then(|d| d.as_array()) { Some(ds) => ds.iter().map(|d| format!("/// {}\n", d.as_str().unwrap())).collect(), None => String::new() }
+}
 pub fn render_ty(t: &Value) -> String {
     let k = t["k"].as_str().unwrap();
     match k {
         "prim" | "var" => t["n"].as_str().unwrap().to_string(),
         "opt" | "vec" => format!("{k} {}", render_ty(&t["a"])),
-        "record" | "variant" => format!("{k} {{ {} }}", t["fs"].as_array().unwrap().iter().map(|f| format!("{} : {}", label_txt(&f["l"]), render_ty(&f["t"]))).collect::<Vec<_>>().join("; ")),
+        "record" | "variant" => format!("{k} {{ {} }}", t["fs"].as_array().unwrap().iter().map(|f| format!("{}{} : {}", docs_txt(f), label_txt(&f["l"]), render_ty(&f["t"]))).collect::<Vec<_>>().join("; ")),
         "func" => format!("func {}", render_func(t)),
         "service" => format!("service {}", render_serv(t)),
         "class" => format!("({}) -> {}", render_args(&t["args"]), if t["t"]["k"] == "service" { render_serv(&t["t"]) } else { render_ty(&t["t"]) }),
@@ -39,11 +42,11 @@ fn render_func(t: &Value) -> String {
     format!("({}) -> ({}) {}", render_args(&t["args"]), render_args(&t["rets"]), t["modes"].as_array().unwrap().iter().map(|m| m.as_str().unwrap().to_string()).collect::<Vec<_>>().join(" "))
 }
 fn render_serv(t: &Value) -> String {
-    format!("{{ {} }}", t["ms"].as_array().unwrap().iter().map(|m| { let mt = &m["t"]; let body = if mt["k"] == "func" { render_func(mt) } else { render_ty(mt) }; format!("{} : {}", name_txt(m["name"].as_str().unwrap()), body) }).collect::<Vec<_>>().join("; "))
+    format!("{{ {} }}", t["ms"].as_array().unwrap().iter().map(|m| { let mt = &m["t"]; let body = if mt["k"] == "func" { render_func(mt) } else { render_ty(mt) }; format!("{}{} : {}", docs_txt(m), name_txt(m["name"].as_str().unwrap()), body) }).collect::<Vec<_>>().join("; "))
 }
 pub fn render(p: &Value) -> String {
     let mut src = String::new();
-    for d in p["defs"].as_array().unwrap() { src.push_str(&format!("type {} = {};\n", name_txt(d["name"].as_str().unwrap()), render_ty(&d["body"]))); }
+    for d in p["defs"].as_array().unwrap() { src.push_str(&format!("{}type {} = {};\n", docs_txt(d), name_txt(d["name"].as_str().unwrap()), render_ty(&d["body"]))); }
     let a = &p["actor"];
     match a["k"].as_str().unwrap() {
         "none" => {}
@@ -123,12 +126,16 @@ pub fn pp_case(idx: usize, src: &str, origin: &str) -> Value {
 
 // ------------------------------------------------------------------ random abstract programs
 const NAMES: &[&str] = &["A", "B", "C", "t", "list", "record_", "Z9", "a_b", "ab", "class", "return", "Self", "type_", "null_", "Ok", "é", "a b", "nat2", "\"q\"", "x\u{0}y", "0a", "", "*/", "${x}", "`b`", "'s'", "line\nbreak"];
-const FIELD_NAMES: &[&str] = &["a", "b", "ab", "ba", "id", "type", "fn", "0", "_0_", "é", "a b", "x\u{0}1", "record", "\\", "\"", "Ok", "Err", "*/", "from", "self"];
-pub struct PG { pub rng: StdRng, pub ndefs: usize, pub ident_methods: bool, pub valid: bool }
+const FIELD_NAMES: &[&str] = &["a", "b", "ab", "ba", "id", "type", "fn", "0", "é", "a b", "x\u{0}1", "record", "\\", "\"", "Ok", "Err", "*/", "from", "self"];
+pub struct PG { pub rng: StdRng, pub ndefs: usize, pub ident_methods: bool, pub valid: bool, pub docs: bool, pub hostile: bool, pub uniq: usize }
+const DOCS: &[&str] = &["plain text", "*/ INJ1 /*", "// INJ2", "\" INJ3 \"", "' + INJ4 + '", "`${INJ5}`", "*/", "/*", "\\", "ends with backslash \\", "</script>", "é", "*\\/ INJ6 /*", "*/*/ INJ13"];
+const HOSTILE: &[&str] = &["a\"; INJ7; \"", "b'; INJ8; '", "*/ INJ9 /*", "\\\"; INJ10; //", "x\n INJ11", "`${INJ12}`", "'", "\\", "\\'"];
 impl PG {
     fn prim(&mut self) -> Value { let n = *["nat", "int", "text", "bool", "null", "reserved", "empty", "principal", "nat8", "int64", "float64", "nat16"].choose(&mut self.rng).unwrap(); json!({"k": "prim", "n": n}) }
     fn defname(&mut self, i: usize) -> String { if i < NAMES.len() && self.rng.gen_bool(0.5) { NAMES[i].to_string() } else { format!("T{i}") } }
+    fn doc(&mut self) -> Value { if self.docs && self.rng.gen_bool(0.5) { let n = self.rng.gen_range(1..3); json!((0..n).map(|_| *DOCS.choose(&mut self.rng).unwrap()).collect::<Vec<_>>()) } else { json!([]) } }
     fn label(&mut self) -> Value {
+        if self.hostile && self.rng.gen_bool(0.3) { let n = *HOSTILE.choose(&mut self.rng).unwrap(); return json!({"k": "name", "b": bytesj(n.as_bytes())}); }
         if self.rng.gen_bool(0.3) { let v = *[0u32, 1, 2, 97, 98, 1000, 65536, 4294967295, 24860].choose(&mut self.rng).unwrap(); json!({"k": "id", "v": u32j(v)}) }
         else { let n = *FIELD_NAMES.choose(&mut self.rng).unwrap(); json!({"k": "name", "b": bytesj(n.as_bytes())}) }
     }
@@ -144,7 +151,7 @@ impl PG {
             3..=4 => if names.is_empty() { self.prim() } else { self.var(names) },
             5 => json!({"k": "opt", "a": self.ty(names, depth - 1)}),
             6 => json!({"k": "vec", "a": self.ty(names, depth - 1)}),
-            7..=9 => { let k = if c == 9 { "variant" } else { "record" }; let n = self.rng.gen_range(0..4); let mut fs = vec![]; for _ in 0..n { let l = self.label(); if self.valid && fs.iter().any(|f: &Value| crate::prog::lab_id(&f["l"]) == crate::prog::lab_id(&l)) { continue; } fs.push(json!({"l": l, "t": self.ty(names, depth - 1)})); } json!({"k": k, "fs": fs}) }
+            7..=9 => { let k = if c == 9 { "variant" } else { "record" }; let n = self.rng.gen_range(0..4); let mut fs = vec![]; for _ in 0..n { let l = self.label(); if self.valid && fs.iter().any(|f: &Value| crate::prog::lab_id(&f["l"]) == crate::prog::lab_id(&l)) { continue; } let d = self.doc(); fs.push(json!({"l": l, "t": self.ty(names, depth - 1), "doc": d})); } json!({"k": k, "fs": fs}) }
             10..=11 => self.func(names, depth - 1),
             _ => self.serv(names, depth - 1),
         }
@@ -171,10 +178,13 @@ impl PG {
         let pool: &[&str] = if self.ident_methods { &["m", "get", "set_x", "f1", "transfer", "n"] } else { &["m", "get", "a b", "é", "*/", "\"", "class", "", "x\u{0}", "${y}", "f'", "line\nbreak"] };
         let mut ms: Vec<Value> = vec![];
         for _ in 0..n {
-            let name = pool.choose(&mut self.rng).unwrap().to_string();
+            let mut name = pool.choose(&mut self.rng).unwrap().to_string();
+            if self.hostile && self.rng.gen_bool(0.3) { name = HOSTILE.choose(&mut self.rng).unwrap().to_string(); }
+            if self.uniq > 0 { self.uniq += 1; name = if self.ident_methods { format!("{}_{}", name, self.uniq) } else { format!("{} {}", name, self.uniq) }; }
             if self.valid && ms.iter().any(|m| m["name"] == name) { continue; }
             let t = if !self.valid && self.rng.gen_range(0..15) == 0 { self.ty(names, 0) } else { self.func(names, depth) };
-            ms.push(json!({"name": name, "t": t}));
+            let d = self.doc();
+            ms.push(json!({"name": name, "t": t, "doc": d}));
         }
         json!({"k": "service", "ms": ms})
     }
@@ -186,9 +196,21 @@ impl PG {
         for n in names.clone() {
             let mut body = self.ty(&names, 3);
             if self.valid { let mut guard = 0; while body["k"] == "var" && guard < 5 { body = self.ty(&names, 2); guard += 1; } if body["k"] == "var" { body = json!({"k": "prim", "n": "nat"}); } }
-            defs.push(json!({"name": n, "body": body}));
+            let d = self.doc();
+            defs.push(json!({"name": n, "body": body, "doc": d}));
         }
         if !self.valid && !defs.is_empty() && self.rng.gen_range(0..25) == 0 { let d = defs[0].clone(); defs.push(d); }
+        // a main service given by name: the definition is a service (its name may be a target-language keyword)
+        if self.valid && self.rng.gen_range(0..5) == 0 {
+            let nm = ["class", "return", "Svc", "function", "self", "S_1", "var", "new"].choose(&mut self.rng).unwrap().to_string();
+            if !names.contains(&nm) {
+                let body = self.serv(&names, 2);
+                let d = self.doc();
+                defs.push(json!({"name": nm, "body": body, "doc": d}));
+                let actor = if self.rng.gen_bool(0.3) { let a = self.args(&names, 1); json!({"k": "class", "args": a, "t": {"k": "var", "n": nm}}) } else { json!({"k": "var", "n": nm}) };
+                return json!({"defs": defs, "actor": actor});
+            }
+        }
         let actor = match self.rng.gen_range(0..5) {
             0 => json!({"k": "none"}),
             1 | 2 => self.serv(&names, 2),
@@ -216,7 +238,7 @@ pub fn run(o: &Opts) {
         }
         idx += 1;
     }
-    let mut g = PG { rng: StdRng::seed_from_u64(o.seed), ndefs: 5, ident_methods: false, valid: false };
+    let mut g = PG { rng: StdRng::seed_from_u64(o.seed), ndefs: 5, ident_methods: false, valid: false, docs: mode == "bind", hostile: mode == "bind", uniq: if mode == "bind" { 1 } else { 0 } };
     for i in 0..o.n {
         g.valid = mode != "wf" || i % 2 == 0;
         g.ident_methods = i % 3 == 0;
